@@ -19,6 +19,10 @@ Supported Rust subset (anything else raises TranslateError -- never a guess):
           | expr ('+' | '-' | '*' | '==' | '!=' | '&&' | '||') expr
           | expr '.' ident | expr '.' ident '(' expr,* ')' | path '(' expr,* ')'
   place ::= ident | place '.' ident | '*' place
+Also: `&&`, `!`, `true`/`false`, struct literals `Self { x, y, z: e }`, `is_one()`,
+`p.xy().map_or_else(Self::zero, |(x, y)| e)`, opaque `usize` parameters, `Self::f(..)` of translated
+static functions.  translate_all() is per-target best effort (a failing target keeps its previous
+generated definition).
 Semantics implemented: Copy values; operands evaluated left to right (a value operand is
 read when it is evaluated, a reference operand when the operation runs); `x op= e`
 evaluates e, then reads x; in-place methods (`square_in_place`, `double_in_place`,
